@@ -43,7 +43,7 @@ From RX.Proofs Require Import CharTablesProofs RejectProofs WfParseTok WfParseCh
 From RX.Spec Require CstU CstText CstNs CstFull CstFullS5.
 From RX.Proofs Require CstSoundP CstSoundPRDoc CstSoundPRCor.
 From RX.Spec Require CstFullS4 CstFullS6.
-From RX.Proofs Require KnownFindingsMore KnownFindingsD21 CstSound6P CstSound6 CstSound6U CstSound6uCor CstSound6a CstSound6aFinal CstSound6bFinal CstSound6rCor CstSound6c CstSound6cFinal CstSound6dFinal CstSound6eCor CstFullS6Main CstSound7 CstSound7Final CstSound8 CstSound8Final CstSound8Cor CstSound9 CstSound9Final CstSound10 CstSound10Final CstFullRejSem CstFullRejTrace CstFullRejDoc CstFullRejMain CstFullNsRejMain.
+From RX.Proofs Require KnownFindingsMore KnownFindingsD21 CstSound6P CstSound6 CstSound6U CstSound6uCor CstSound6a CstSound6aFinal CstSound6bFinal CstSound6rCor CstSound6c CstSound6cFinal CstSound6dFinal CstSound6eCor CstFullS6Main CstSound7 CstSound7Final CstSound8 CstSound8Final CstSound8Cor CstSound9 CstSound9Final CstSound10 CstSound10Final CstSoundCr CstSoundCrLex2 CstSoundCrFinal CstFullRejSem CstFullRejTrace CstFullRejDoc CstFullRejMain CstFullNsRejMain.
 From RX.Spec Require CstFullS11.
 From RX.Proofs Require CstFullS11Main CstFullRejS11Sem CstFullRejS11Doc CstFullRejS11Main CstFullRejS11NsMain NsRejDefs NsRejBuild.
 Open Scope N_scope.
@@ -514,8 +514,20 @@ Print Assumptions C08_parse_view_of_witness.
 
 End G18.
 
-(* ---- Proofs/CstSound10Final.v ---- *)
+(* ---- Proofs/CstSoundCrFinal.v ---- *)
 Module G19.
+Import RX.Spec.CstFull. Import RX.Spec.CstFullS5. Import RX.Spec.CstFullS6. Import RX.Spec.CstFullS7. Import RX.Spec.CstFullS8. Import RX.Proofs.CstSoundP. Import RX.Proofs.CstSound6. Import RX.Proofs.CstSound6U. Import RX.Proofs.CstSound7. Import RX.Proofs.CstSound8. Import RX.Proofs.CstSoundCr. Import RX.Proofs.CstSoundCrLex2. Import RX.Proofs.CstSoundCrFinal.
+Theorem C08_parse_sound_fragment_8cr2 :
+  forall text opt d,
+  in_fragment_8cr2 text = true -> allow_dtd opt = true -> parse text opt = Ok d ->
+  exists c : S6.doc, S8.wf_doc c = true /\ S8.render c = text.
+Proof. exact parse_sound_fragment_8cr2. Qed.
+Print Assumptions C08_parse_sound_fragment_8cr2.
+
+End G19.
+
+(* ---- Proofs/CstSound10Final.v ---- *)
+Module G20.
 Import RX.Spec.CstFull. Import RX.Spec.CstFullS5. Import RX.Spec.CstFullS6. Import RX.Spec.CstFullS7. Import RX.Spec.CstFullS8. Import RX.Spec.CstFullS9. Import RX.Spec.CstFullS10. Import RX.Proofs.CstNsView. Import RX.Proofs.CstSoundP. Import RX.Proofs.CstSound6. Import RX.Proofs.CstSound6U. Import RX.Proofs.CstSound7. Import RX.Proofs.CstSound8. Import RX.Proofs.CstSound9. Import RX.Proofs.CstSound10. Import RX.Proofs.CstSound10Final.
 Theorem C08_parse_sound_fragment_10 :
   forall text opt d,
@@ -534,10 +546,10 @@ Theorem C08_parse_sound_and_complete_10_hyp :
 Proof. exact parse_sound_and_complete_10_hyp. Qed.
 Print Assumptions C08_parse_sound_and_complete_10_hyp.
 
-End G19.
+End G20.
 
 (* ---- Proofs/CstSound9Final.v ---- *)
-Module G20.
+Module G21.
 Import RX.Spec.CstFull. Import RX.Spec.CstFullS5. Import RX.Spec.CstFullS6. Import RX.Spec.CstFullS7. Import RX.Spec.CstFullS8. Import RX.Spec.CstFullS9. Import RX.Proofs.CstNsView. Import RX.Proofs.CstSoundP. Import RX.Proofs.CstSound6. Import RX.Proofs.CstSound6U. Import RX.Proofs.CstSound7. Import RX.Proofs.CstSound8. Import RX.Proofs.CstSound9. Import RX.Proofs.CstSound9Final.
 Theorem C08_parse_sound_fragment_9 :
   forall text opt d,
@@ -556,10 +568,10 @@ Theorem C08_parse_sound_and_complete_9_hyp :
 Proof. exact parse_sound_and_complete_9_hyp. Qed.
 Print Assumptions C08_parse_sound_and_complete_9_hyp.
 
-End G20.
+End G21.
 
 (* ---- Proofs/CstSound8Cor.v ---- *)
-Module G21.
+Module G22.
 Import RX.Spec.CstFull. Import RX.Spec.CstFullS5. Import RX.Spec.CstFullS6. Import RX.Spec.CstFullS7. Import RX.Spec.CstFullS8. Import RX.Spec.CstFullS9. Import RX.Proofs.CstNsView. Import RX.Proofs.CstSoundP. Import RX.Proofs.CstSound6. Import RX.Proofs.CstSound6U. Import RX.Proofs.CstSound7. Import RX.Proofs.CstSound8. Import RX.Proofs.CstSound8Cor.
 Theorem C08_parse_sound_and_complete_8_hyp :
   forall text opt d,
@@ -571,10 +583,10 @@ Theorem C08_parse_sound_and_complete_8_hyp :
 Proof. exact parse_sound_and_complete_8_hyp. Qed.
 Print Assumptions C08_parse_sound_and_complete_8_hyp.
 
-End G21.
+End G22.
 
 (* ---- Proofs/CstSound7Final.v ---- *)
-Module G22.
+Module G23.
 Import RX.Spec.CstFull. Import RX.Spec.CstFullS5. Import RX.Spec.CstFullS6. Import RX.Spec.CstFullS7. Import RX.Spec.CstFullS8. Import RX.Proofs.CstSoundP. Import RX.Proofs.CstSound6. Import RX.Proofs.CstSound6U. Import RX.Proofs.CstSound7. Import RX.Proofs.CstSound7Final.
 Theorem C08_parse_sound_fragment_7 :
   forall text opt d,
@@ -583,10 +595,10 @@ Theorem C08_parse_sound_fragment_7 :
 Proof. exact parse_sound_fragment_7. Qed.
 Print Assumptions C08_parse_sound_fragment_7.
 
-End G22.
+End G23.
 
 (* ---- Proofs/CstSound8Final.v ---- *)
-Module G23.
+Module G24.
 Import RX.Spec.CstFull. Import RX.Spec.CstFullS5. Import RX.Spec.CstFullS6. Import RX.Spec.CstFullS7. Import RX.Spec.CstFullS8. Import RX.Proofs.CstSoundP. Import RX.Proofs.CstSound6. Import RX.Proofs.CstSound6U. Import RX.Proofs.CstSound7. Import RX.Proofs.CstSound8. Import RX.Proofs.CstSound8Final.
 Theorem C08_parse_sound_fragment_8 :
   forall text opt d,
@@ -595,10 +607,10 @@ Theorem C08_parse_sound_fragment_8 :
 Proof. exact parse_sound_fragment_8. Qed.
 Print Assumptions C08_parse_sound_fragment_8.
 
-End G23.
+End G24.
 
 (* ---- Proofs/CstSound6dFinal.v ---- *)
-Module G24.
+Module G25.
 Import RX.Spec.CstFull. Import RX.Spec.CstFullS5. Import RX.Spec.CstFullS6. Import RX.Proofs.CstNsView. Import RX.Proofs.CstSoundP. Import RX.Proofs.CstSound6. Import RX.Proofs.CstSound6U. Import RX.Proofs.CstSound6dFinal.
 Theorem C08_parse_sound_fragment_6 :
   forall text opt d,
@@ -607,10 +619,10 @@ Theorem C08_parse_sound_fragment_6 :
 Proof. exact parse_sound_fragment_6. Qed.
 Print Assumptions C08_parse_sound_fragment_6.
 
-End G24.
+End G25.
 
 (* ---- Proofs/CstSound6eCor.v ---- *)
-Module G25.
+Module G26.
 Import RX.Spec.CstFull. Import RX.Spec.CstFullS5. Import RX.Spec.CstFullS6. Import RX.Proofs.CstNsView. Import RX.Proofs.CstSoundP. Import RX.Proofs.CstSound6. Import RX.Proofs.CstSound6U. Import RX.Proofs.CstSound6eCor.
 Theorem C08_parse_sound_fragment_6_res :
   forall text opt d,
@@ -638,10 +650,10 @@ Theorem C08_parse_sound_and_complete_6_nl :
 Proof. exact parse_sound_and_complete_6_nl. Qed.
 Print Assumptions C08_parse_sound_and_complete_6_nl.
 
-End G25.
+End G26.
 
 (* ---- Proofs/CstSound6cFinal.v ---- *)
-Module G26.
+Module G27.
 Import RX.Spec.CstFull. Import RX.Spec.CstFullS5. Import RX.Spec.CstFullS6. Import RX.Proofs.CstSoundP. Import RX.Proofs.CstSound6. Import RX.Proofs.CstSound6U. Import RX.Proofs.CstSound6a. Import RX.Proofs.CstSound6c. Import RX.Proofs.CstSound6cFinal.
 Theorem C08_parse_sound_fragment_6c :
   forall text opt d,
@@ -650,10 +662,10 @@ Theorem C08_parse_sound_fragment_6c :
 Proof. exact parse_sound_fragment_6c. Qed.
 Print Assumptions C08_parse_sound_fragment_6c.
 
-End G26.
+End G27.
 
 (* ---- Proofs/CstSound6aFinal.v ---- *)
-Module G27.
+Module G28.
 Import RX.Spec.CstFull. Import RX.Spec.CstFullS5. Import RX.Spec.CstFullS6. Import RX.Proofs.CstSoundP. Import RX.Proofs.CstSound6. Import RX.Proofs.CstSound6U. Import RX.Proofs.CstSound6a. Import RX.Proofs.CstSound6aFinal.
 Theorem C08_parse_sound_fragment_6a1 :
   forall text opt d,
@@ -662,10 +674,10 @@ Theorem C08_parse_sound_fragment_6a1 :
 Proof. exact parse_sound_fragment_6a1. Qed.
 Print Assumptions C08_parse_sound_fragment_6a1.
 
-End G27.
+End G28.
 
 (* ---- Proofs/KnownFindingsMore.v ---- *)
-Module G28.
+Module G29.
 Import RX.Proofs.CstNsView. Import RX.Proofs.KnownFindingsMore.
 Theorem C08_d27_refuted :
   exists x : document,
@@ -686,10 +698,10 @@ Theorem C08_d29_refuted :
 Proof. exact d29_refuted. Qed.
 Print Assumptions C08_d29_refuted.
 
-End G28.
+End G29.
 
 (* ---- Proofs/KnownFindingsD21.v ---- *)
-Module G29.
+Module G30.
 Import RX.Spec.CstNs. Import RX.Proofs.NsRejDefs. Import RX.Proofs.NsRejBuild. Import RX.Proofs.NsRejMain. Import RX.Proofs.KnownFindingsD21.
 Theorem C08_d21_refuted :
   exists (c : doc) (d : document),
@@ -716,10 +728,10 @@ Theorem C08_d21_outside_class_variant :
 Proof. exact d21_outside_class_variant. Qed.
 Print Assumptions C08_d21_outside_class_variant.
 
-End G29.
+End G30.
 
 (* ---- Proofs/NsRejMain.v ---- *)
-Module G30.
+Module G31.
 Import CstNs.
 Theorem C08_ns_violation_rejected :
   forall (c : doc) (opt : options),
@@ -732,10 +744,10 @@ Theorem C08_ns_violation_rejected :
 Proof. exact ns_violation_rejected. Qed.
 Print Assumptions C08_ns_violation_rejected.
 
-End G30.
+End G31.
 
 (* ---- Proofs/CstFullRejS11NsMain.v ---- *)
-Module G31.
+Module G32.
 Import RX.Spec.CstFull. Import RX.Spec.CstFullS4. Import RX.Spec.CstFullS6. Import RX.Spec.CstFullS11. Import RX.Proofs.CstNsView. Import RX.Proofs.CstFullS11Main. Import RX.Proofs.NsRejDefs. Import RX.Proofs.NsRejBuild. Import RX.Proofs.CstFullRejSem. Import RX.Proofs.CstFullRejS11Sem. Import RX.Proofs.CstFullRejTrace. Import RX.Proofs.CstFullRejS11Doc. Import RX.Proofs.CstFullRejMain. Import RX.Proofs.CstFullRejS11Main. Import RX.Proofs.CstFullNsRejMain. Import RX.Proofs.CstFullRejS11NsMain.
 Theorem C08_ns_violation_rejected_full_s11 :
   forall (d : S6.doc) (opt : options) (cT : CstFull.doc bpieces) (tr : list Detector.lop),
@@ -754,10 +766,10 @@ Theorem C08_ns_violation_rejected_full_s11 :
 Proof. exact ns_violation_rejected_full_s11. Qed.
 Print Assumptions C08_ns_violation_rejected_full_s11.
 
-End G31.
+End G32.
 
 (* ---- Proofs/CstFullNsRejMain.v ---- *)
-Module G32.
+Module G33.
 Import RX.Spec.CstFull. Import RX.Spec.CstFullS4. Import RX.Spec.CstFullS6. Import RX.Proofs.CstNsView. Import RX.Proofs.CstFullS6Main. Import RX.Proofs.NsRejDefs. Import RX.Proofs.NsRejBuild. Import RX.Proofs.CstFullRejSem. Import RX.Proofs.CstFullRejTrace. Import RX.Proofs.CstFullRejDoc. Import RX.Proofs.CstFullRejMain. Import RX.Proofs.CstFullNsRejMain.
 Theorem C08_ns_violation_rejected_full_s6 :
   forall (d : S6.doc) (opt : options) (cT : CstFull.doc bpieces) (tr : list Detector.lop),
@@ -776,4 +788,4 @@ Theorem C08_ns_violation_rejected_full_s6 :
 Proof. exact ns_violation_rejected_full_s6. Qed.
 Print Assumptions C08_ns_violation_rejected_full_s6.
 
-End G32.
+End G33.
